@@ -6,7 +6,7 @@ spec -> code : FieldOpsMC.tla is a state machine over "the current array"; TLC e
                exported and replayed: the real esutil.numpy_util functions are stepped
                through the chain, the result of one call being the input of the next.
 code -> spec : before and after every call the real arrays are projected to
-               [shape, fields: (name, kind, sub-shape, byte order, data token)] and the
+               [shape, fields: (name, kind, sub-shape, byte order, inner fields, data token)] and the
                (pre, operation, observation) steps - of those replays and of longer
                seeded chains over a wider dtype catalogue - are judged by
                FieldOpsTrace.tla (the property-level FOFailing of FieldOps.tla).
@@ -17,6 +17,13 @@ different data (integer extremes, huge / tiny floats, strings of mixed length wi
 non-ASCII characters; no NaN / -0.0 so that element-wise equality is byte equality
 of the native-order values).  The projection reports which token's data a real field
 is element-wise equal to ("?" if none).
+
+Field alphabet: scalar and sub-array fields of integer / unsigned / float / complex / bool /
+bytes / unicode type in either byte order, and NESTED structured fields (kind "struct" with
+their own inner field sequence - inner names equal to outer names, inner sub-arrays, inner
+byte orders, a second level, sub-arrays of structures): one field with one data token, whose
+leaves all hold that token's data.  Field names are symbolic in the model; the scenario key
+carries a spelling (plain / differing only in case + long / non-ASCII) applied here.
 """
 import hashlib
 import json
@@ -44,6 +51,11 @@ FN = {"extract": "extract_fields", "remove": "remove_fields", "reorder": "reorde
 _FNAMES = ["a", "b", "c", "d", "e", "f", "g", "h", "p", "q", "x", "y", "z", "w", "u", "v", "zz", "r", "s", "t"]
 _UCP = [chr(c) for c in list(range(0x41, 0x5b)) + [0xe9, 0xdf, 0x3b1, 0x20ac, 0x4e2d, 0x1d11e, 0x10ffff, 0x7e, 0x21, 0x100]]
 _DEFAULTS = {"d1": (7, 2.5, b"ab", "é"), "d2": (9, -1e10, b"x", "zq"), "d3": (12, 0.125, b"q~", "€")}
+_BOOLPAT = {"d1": 252, "d2": 253, "d3": 254}      # a bool field is always a sub-array of 8: one byte of pattern per item
+
+
+class Unusable(MachineryError):
+    """this (tokens, type, shape) combination cannot be told apart by its data: draw another scenario"""
 
 
 def token_index(tok):
@@ -54,16 +66,29 @@ def token_index(tok):
 
 
 def native_dtype(kind):
-    return np.dtype(kind if kind[0] in "SU" else "=" + kind)
+    return np.dtype(kind if kind[0] in "SUOb" else "=" + kind)
 
 
-def default_value(tok, kind):
+def _bits(p):
+    return np.array([(p >> k) & 1 for k in range(8)], dtype=bool)
+
+
+def leaf_default(tok, kind, sub=()):
+    """the default value token `tok` stands for in a (leaf) field of this kind"""
     i, f, b, u = _DEFAULTS[tok]
     c = kind[0]
     if c in "iu":
         return i
     if c == "f":
-        return f
+        return f if kind != "f2" else max(-6e4, f)
+    if c == "c":
+        return complex(f, -1.25)
+    if c == "b":
+        return _bits(_BOOLPAT[tok]).reshape(tuple(sub) if sub else (8,))
+    if c in "Mm":
+        return np.array(i, dtype="i8").view(native_dtype(kind))[()]
+    if c == "O":
+        return "default:%d" % i                          # (a tuple or list would be taken for a sequence of values)
     w = int(kind[1:])
     return b[:w] if c == "S" else u[:w]
 
@@ -71,51 +96,76 @@ def default_value(tok, kind):
 _MAT = {}
 
 
-def materialise(tok, kind, shape):
-    """the values (native byte order) token `tok` stands for in a field of this kind and full shape (memoised, read-only)"""
-    key = (tok, kind, tuple(shape))
+def materialise(tok, kind, shape, salt=0):
+    """the values (native byte order) token `tok` stands for in a leaf field of this kind and full shape (memoised,
+    read-only); `salt` = position of the leaf inside a nested field (0: a top-level field), so that the leaves of one
+    nested field hold different data"""
+    key = (tok, kind, tuple(shape), salt)
     v = _MAT.get(key)
     if v is None:
-        v = _materialise(tok, kind, shape)
+        v = _materialise(tok, kind, shape, salt)
         v.setflags(write=False)
+        if len(_MAT) > 200000:
+            _MAT.clear()
         _MAT[key] = v
     return v
 
 
-def _materialise(tok, kind, shape):
-    dt = native_dtype(kind)
+def _materialise(tok, kind, shape, salt):
+    try:
+        dt = native_dtype(kind)
+    except TypeError:
+        raise MachineryError("kind %r not in the catalogue" % kind)
     shape = tuple(shape)
     n = int(np.prod(shape, dtype=np.int64)) if shape else 1
+    c = kind[0]
+    if c == "b" and n % 8:
+        raise Unusable("a bool field needs 8 elements per item")
     if tok == "zero":
-        return np.zeros(shape, dtype=dt)
+        return np.zeros(shape, dtype=dt)                  # (object: the integer 0, as np.zeros gives)
     if tok in _DEFAULTS:
         out = np.empty(shape, dtype=dt)
-        out[...] = default_value(tok, kind)
+        if c == "b":
+            out.reshape(-1, 8)[...] = _bits(_BOOLPAT[tok])
+        elif c == "O":
+            for ix in np.ndindex(*shape):
+                out[ix] = leaf_default(tok, kind)
+        else:
+            out[...] = leaf_default(tok, kind)
         return out
-    t = token_index(tok)
-    c, w = kind[0], int(kind[1:])
+    t = token_index(tok) + 163 * salt
     j = np.arange(n, dtype=np.int64)
-    if c in "iu":
+    if c in "iuMm":
+        w = dt.itemsize
         if w >= 4:
             v = t * 100003 + j * 7 + 1
         elif w == 2:
             v = t * 100 + j + 1
         else:
             v = (t * 37 + j * 11) % 120 + 1
-        if c == "i":
+        if c != "u":
             v = np.where(j % 2 == 1, -v, v)
-        v = v.astype(dt)
+        idt = dt if c in "iu" else np.dtype("=i8")
+        v = v.astype(idt)
         if n >= 3 and w >= 2:
-            info = np.iinfo(dt)
-            v[0], v[1] = info.min, info.max
+            info = np.iinfo(idt)
+            v[0], v[1] = info.min + (1 if c in "Mm" else 0), info.max       # (the minimum is NaT)
+        if c in "Mm":
+            v = v.view(dt)
     elif c == "f":
-        step = 100 if w == 8 else 20
-        v = (t + j / 64.0 + 1 / 128.0) * np.power(2.0, ((j % 5) - 2) * step)
-        v = np.where(j % 2 == 1, -v, v).astype(dt)
-        if n >= 3:
-            info = np.finfo(dt)
-            v[0], v[1] = info.max, -info.tiny
+        v = _floats(t, j, n, dt)
+    elif c == "c":
+        fdt = np.dtype("=f%d" % (dt.itemsize // 2))
+        v = np.empty(n, dtype=dt)
+        v.real = _floats(t, j, n, fdt)
+        v.imag = -_floats(t + 1, j, n, fdt)[::-1] / 2
+    elif c == "b":
+        p = (token_index(tok) + 31 * salt) % 251 + 1                           # 1..251, injective in the token
+        v = np.empty((n // 8, 8), dtype=bool)
+        v[...] = _bits(p)
+        v[1::2] = ~v[1::2]
     elif c == "S":
+        w = dt.itemsize
         items = []
         for jj in range(n):
             s = bytes([33 + t % 90, 33 + (t // 90 + 7 * jj) % 90] + [33 + (jj * 5 + k) % 90 for k in range(max(0, w - 2))])
@@ -124,6 +174,7 @@ def _materialise(tok, kind, shape):
             items.append(s[:w])
         v = np.array(items, dtype=dt)
     elif c == "U":
+        w = dt.itemsize // 4
         L = len(_UCP)
         items = []
         for jj in range(n):
@@ -132,9 +183,27 @@ def _materialise(tok, kind, shape):
                 s = s[:-1]
             items.append(s[:w])
         v = np.array(items, dtype=dt)
+    elif c == "O":
+        v = np.empty(n, dtype=object)
+        for jj in range(n):
+            v[jj] = [t * 1000 + jj, "t%d.%d" % (t, jj), (t, jj, 2.5), None, {"k": t + jj}][jj % 5] if jj else t * 1000
     else:
         raise MachineryError("kind %r not in the catalogue" % kind)
     return v.reshape(shape)
+
+
+def _floats(t, j, n, dt):
+    if dt.itemsize == 2:
+        v = t + (j % 2) * 0.5 + 0.25                    # exactly representable up to 2048
+        v = np.where(j % 2 == 1, -v, v).astype(dt)
+    else:
+        step = 100 if dt.itemsize == 8 else 20
+        v = (t + j / 64.0 + 1 / 128.0) * np.power(2.0, ((j % 5) - 2) * step)
+        v = np.where(j % 2 == 1, -v, v).astype(dt)
+    if n >= 3:
+        info = np.finfo(dt)
+        v[0], v[1] = info.max, -info.tiny
+    return v
 
 
 def typestr(f):
@@ -142,89 +211,229 @@ def typestr(f):
 
 
 def descr_of(fields):
-    return [(f["name"], typestr(f), tuple(f["sub"])) if f["sub"] else (f["name"], typestr(f)) for f in fields]
+    """abstract field sequence -> numpy descr (nested fields: a descr of their own)"""
+    out = []
+    for f in fields:
+        t = descr_of(f["inner"]) if f["kind"] == "struct" else typestr(f)
+        out.append((f["name"], t, tuple(f["sub"])) if f["sub"] else (f["name"], t))
+    return out
+
+
+def _fill(view, f, tok, counter):
+    """write token `tok`'s data into the real field `view` (all leaves of a nested field, in order)"""
+    if f["kind"] == "struct":
+        for g in f["inner"]:
+            _fill(view[g["name"]], g, tok, counter)
+    else:
+        counter[0] += 1
+        view[...] = materialise(tok, f["kind"], view.shape, counter[0] if counter[1] else 0)
+
+
+def fill(view, f, tok):
+    _fill(view, f, tok, [0, f["kind"] == "struct"])
 
 
 def build(a):
     """abstract array -> real packed structured ndarray holding the tokens' data"""
     arr = np.zeros(tuple(a["shape"]), dtype=np.dtype(descr_of(a["fields"])))
     for f in a["fields"]:
-        arr[f["name"]] = materialise(f["tok"], f["kind"], list(a["shape"]) + list(f["sub"]))
+        fill(arr[f["name"]], f, f["tok"])
     return arr
 
 
+def default_value(tok, f):
+    """the value handed to the real code for default token `tok` of (abstract) field f: a python scalar, or one
+    structure (numpy.void) for a nested field"""
+    if f["kind"] != "struct":
+        if tok == "zero":
+            return 0 if f["kind"][0] in "iuf" else "" if f["kind"][0] in "SU" else np.zeros((), dtype=native_dtype(f["kind"]))[()]
+        return leaf_default(tok, f["kind"], f["sub"])
+    z = np.zeros((), dtype=np.dtype(descr_of(f["inner"])))
+    fill(z, f, tok)
+    return z[()]
+
+
+def inner_of(dt):
+    """the field sequence of a structured dtype (public observables only), data tokens "-" """
+    return [dict(field_of_dtype(n, dt.fields[n][0]), tok="-") for n in dt.names]
+
+
+_FOD = {}
+
+
+def field_of_dtype(name, fdt):
+    """the abstract field (without data token) of a real field type; memoised - the nested parts are shared, never modified"""
+    got = _FOD.get(fdt)
+    if got is None:
+        base = fdt.base
+        if base.names is not None:
+            got = {"kind": "struct", "sub": [int(x) for x in fdt.shape], "order": "|", "inner": inner_of(base)}
+        else:
+            kind, order = kind_order(base)
+            got = {"kind": kind, "sub": [int(x) for x in fdt.shape], "order": order, "inner": []}
+        got["known"] = _all_known(got)
+        if len(_FOD) > 20000:
+            _FOD.clear()
+        _FOD[fdt] = got
+    return {"name": name, "kind": got["kind"], "sub": got["sub"], "order": got["order"], "inner": got["inner"]}
+
+
+def _is_known(fdt):
+    got = _FOD.get(fdt)
+    return got["known"] if got is not None else _all_known(field_of_dtype("", fdt))
+
+
+def type_sig(f):
+    """what the data of a field depend on: the kinds and sub-array shapes of its leaves, in order"""
+    if f["kind"] != "struct":
+        return f["kind"]
+    return tuple((type_sig(g), tuple(g["sub"])) for g in f["inner"])
+
+
+def _leaf_bytes(v, kind):
+    if kind == "O":
+        return repr(v.tolist()).encode()
+    return np.ascontiguousarray(v).astype(native_dtype(kind), copy=False).tobytes()
+
+
+def _gather(view, f, out):
+    if f["kind"] == "struct":
+        for g in f["inner"]:
+            _gather(view[g["name"]], g, out)
+    else:
+        out.append(_leaf_bytes(view, f["kind"]))
+
+
+def _expected_bytes(tok, f, shape, counter, out):
+    """leaf by leaf, the bytes token `tok` stands for in a field of type f and full shape `shape`"""
+    if f["kind"] == "struct":
+        for g in f["inner"]:
+            _expected_bytes(tok, g, tuple(shape) + tuple(g["sub"]), counter, out)
+    else:
+        counter[0] += 1
+        out.append(_leaf_bytes(materialise(tok, f["kind"], shape, counter[0] if counter[1] else 0), f["kind"]))
+
+
 _TABLES = {}
+_KNOWN = ("i1", "i2", "i4", "i8", "u1", "u2", "u4", "u8", "f2", "f4", "f8", "c8", "c16", "b1", "O")
+
+
+def _known_kind(kind):
+    return kind in _KNOWN or (kind[0] in "SU" and kind[1:].isdigit() and int(kind[1:]) > 0) or kind[:3] in ("M8[", "m8[")
 
 
 class Universe:
-    """the data tokens of one scenario; (kind, full shape) -> {native bytes: token}"""
+    """the data tokens of one scenario; (type signature, full shape) -> {native bytes of the leaves: token}"""
 
     def __init__(self, tokens):
         self.tokens = sorted(set(tokens) | {"zero", "d1", "d2", "d3"})
         self.tables = _TABLES.setdefault(tuple(self.tokens), {})
 
-    def table(self, kind, shape):
-        key = (kind, tuple(shape))
+    def table(self, f, shape):
+        key = (type_sig(f), tuple(shape))
         tb = self.tables.get(key)
         if tb is None:
             tb = {}
             for tok in self.tokens:
-                try:
-                    b = materialise(tok, kind, shape).tobytes()
-                except MachineryError:
-                    raise
+                parts = []
+                _expected_bytes(tok, f, shape, [0, f["kind"] == "struct"], parts)
+                if tok not in ("zero", "d1", "d2", "d3") and len(set(parts)) < len(parts):
+                    raise Unusable("two leaves of %s hold the same data for token %s" % (key[0], tok))
+                b = b"\0|".join(parts)
                 if b in tb:
-                    # two tokens with the same data for this kind/shape: the projection would be ambiguous
-                    raise MachineryError("tokens %s and %s coincide for %s%s" % (tb[b], tok, kind, tuple(shape)))
+                    # two tokens with the same data for this type/shape: the projection would be ambiguous
+                    raise Unusable("tokens %s and %s coincide for %s%s" % (tb[b], tok, key[0], tuple(shape)))
                 tb[b] = tok
             self.tables[key] = tb
         return tb
 
-    def token_of(self, values, kind):
+    def token_of(self, view, f):
+        """which token's data the real field `view` (of projected type f) holds, "?" if none"""
         try:
-            tb = self.table(kind, values.shape)
+            tb = self.table(f, view.shape)
+        except Unusable:
+            raise
         except MachineryError:
-            if kind[0] in "iufSU" and kind[1:].isdigit() and (kind[0] not in "iu" or int(kind[1:]) in (1, 2, 4, 8)) \
-                    and (kind[0] != "f" or int(kind[1:]) in (4, 8)) and int(kind[1:]) > 0:
-                raise
-            return "?"
-        nat = np.ascontiguousarray(values).astype(native_dtype(kind), copy=False)
-        return tb.get(nat.tobytes(), "?")
+            return "?"                                   # a kind outside the catalogue (only a wrong result can have one)
+        parts = []
+        _gather(view, f, parts)
+        return tb.get(b"\0|".join(parts), "?")
+
+
+def _all_known(f):
+    return all(_all_known(g) for g in f["inner"]) if f["kind"] == "struct" else _known_kind(f["kind"])
 
 
 def kind_order(base):
     k = base.kind
     if k == "U":
         kind = "U%d" % (base.itemsize // 4)
-    elif k in "iufS":
+    elif k in "iufSc":
         kind = "%s%d" % (k, base.itemsize)
     else:
-        kind = base.str.lstrip("<>|=")
+        kind = base.str.lstrip("<>|=")                   # b1, M8[s], m8[ms], O, V3
     o = base.byteorder
     return kind, (NATIVE if o == "=" else o)
 
 
 def project(arr, uni):
-    """real array -> [shape, fields: (name, kind, sub, order, tok)]; public observables only"""
+    """real array -> [shape, fields: (name, kind, sub, order, inner, tok)]; public observables only"""
     if not isinstance(arr, np.ndarray) or arr.dtype.names is None:
         return {"shape": [-1], "fields": []}
     fields = []
     for name in arr.dtype.names:
         fdt = arr.dtype.fields[name][0]
-        kind, order = kind_order(fdt.base)
-        v = arr[name]
-        tok = uni.token_of(v, kind) if kind[0] in "iufSU" else "?"
-        fields.append({"name": name, "kind": kind, "sub": [int(x) for x in fdt.shape], "order": order, "tok": tok})
+        f = field_of_dtype(name, fdt)
+        f["tok"] = uni.token_of(arr[name], f) if _is_known(fdt) else "?"
+        fields.append(f)
     return {"shape": [int(x) for x in arr.shape], "fields": fields}
 
 
 def project_view(v, uni):
     v = np.asarray(v)
-    if v.dtype.names is not None:
-        return {"shape": [int(x) for x in v.shape], "kind": "struct", "order": "|", "tok": "?"}
-    kind, order = kind_order(v.dtype)
-    return {"shape": [int(x) for x in v.shape], "kind": kind, "order": order,
-            "tok": uni.token_of(v, kind) if kind[0] in "iufSU" else "?"}
+    f = field_of_dtype("", v.dtype)
+    return {"shape": [int(x) for x in v.shape], "kind": f["kind"], "order": f["order"], "inner": f["inner"],
+            "tok": uni.token_of(v, f) if _all_known(f) else "?"}
+
+
+# ---------------------------------------------------------------------------------
+# symbolic field names -> the spelling used in the real arrays (the algebra of FieldOps.tla is name-blind;
+# the style is enumerated by TLC as part of the scenario key)
+# ---------------------------------------------------------------------------------
+_LONG = "_aperture_corrected_model_magnitude_error_0123456789"
+_STYLE = {
+    0: {},
+    # names that differ only in case (also the name no array has), long names
+    1: {"a": "flux", "b": "Flux", "c": "FLUX", "d": "fluX", "zz": "fLUX", "p": "flux" + _LONG, "q": "FLUX" + _LONG,
+        "s": "Flux" + _LONG, "x": "Xcol", "y": "xcol", "m": "XCOL"},
+    # non-ASCII names: accented (composed, and the missing name is its decomposed twin), other scripts, a blank,
+    # sharp s / long s, micro sign vs greek mu
+    2: {"a": "é", "b": "É", "c": "αβγ", "d": "名前", "zz": "é", "p": "a b", "q": "ß",
+        "s": "ſ", "x": "µ", "y": "μ", "m": "\U0001d4c1"},
+}
+_STYLE_REST = {0: "%s", 1: "%s_Col", 2: "%sü"}
+_ALLNAMES = _FNAMES + ["m", "n", "k"]
+
+
+def spell(name, style):
+    return _STYLE[style].get(name, _STYLE_REST[style] % name)
+
+
+for _st in _STYLE:
+    if len({spell(n, _st) for n in _ALLNAMES}) != len(_ALLNAMES):
+        raise MachineryError("name style %d is not a bijection" % _st)
+
+
+def respell(obj, style):
+    """the same scenario / operation with every field name (top level, nested, requested, added) spelt in `style`"""
+    if style == 0:
+        return obj
+    if isinstance(obj, dict):
+        return {k: (spell(v, style) if k == "name" else [spell(n, style) for n in v] if k == "names" else respell(v, style))
+                for k, v in obj.items()}
+    if isinstance(obj, list):
+        return [respell(v, style) for v in obj]
+    return obj
 
 
 # ---------------------------------------------------------------------------------
@@ -261,11 +470,11 @@ def strided(x):
 
 
 def snapshot(xs):
-    return [(x, x.tobytes(), x.dtype.descr, x.shape) for x in xs]
+    return [(x, x.tobytes(), x.dtype, x.shape) for x in xs]
 
 
 def unchanged(snap):
-    return all(x.tobytes() == b and x.dtype.descr == d and x.shape == s for x, b, d, s in snap)
+    return all(x.tobytes() == b and (x.dtype is d or x.dtype == d) and x.shape == s for x, b, d, s in snap)
 
 
 def exec_op(cur, op, pool, uni):
@@ -301,7 +510,7 @@ def exec_op(cur, op, pool, uni):
                 if all(f["tok"] == "zero" for f in op["add"]):
                     res = nu.add_fields(cur, d)
                 else:
-                    dv = [default_value(f["tok"], f["kind"]) if f["tok"] != "zero" else (0 if f["kind"][0] in "iuf" else "") for f in op["add"]]
+                    dv = [default_value(f["tok"], f) for f in op["add"]]
                     res = nu.add_fields(cur, d, defaults=dv[0] if len(dv) == 1 and op["form"] == "dtype" else dv)
                 obs.update(arr=project(res, uni), fresh=not np.shares_memory(res, cur), frame=unchanged(snap))
                 nxt = res
@@ -322,10 +531,11 @@ def exec_op(cur, op, pool, uni):
                 obs.update(arr=project(dst, uni), frame=unchanged(snap))
                 nxt = dst
             elif k == "copy_by_name":
-                have = {n: cur.dtype.fields[n][0] for n in cur.dtype.names}
-                vals = [default_value(t, kind_order(have[n].base)[0]) if n in have else 1 for n, t in zip(op["names"], op["vals"])]
+                have = {n: field_of_dtype(n, cur.dtype.fields[n][0]) for n in cur.dtype.names}
+                vals = [default_value(t, have[n]) if n in have else 1 for n, t in zip(op["names"], op["vals"])]
                 if op["form"] == "scalar":
-                    nu.copy_fields_by_name(cur, op["names"][0], vals[0])
+                    # (an array-valued default - the 8 flags of a bool field - would be taken for the sequence of values)
+                    nu.copy_fields_by_name(cur, op["names"][0], [vals[0]] if isinstance(vals[0], np.ndarray) else vals[0])
                 elif op["form"] == "tuple":
                     nu.copy_fields_by_name(cur, tuple(op["names"]), tuple(vals))
                 else:
@@ -461,6 +671,10 @@ def judge(ctx, steps, recs, what, tally):
                 key = "%s(%s): %s" % (entry, rec["op"]["form"], cl[len("nongating/"):].split(":")[0])
                 tally[key] = tally.get(key, 0) + 1
                 continue
+            if cl.startswith("outside/"):                # a date / time-span / object field is involved: outside the quantifier
+                key = "%s with M8/m8/O fields: %s" % (entry, cl[len("outside/"):])
+                tally[key] = tally.get(key, 0) + 1
+                continue
             ctx.violation("%s|%s|%s" % (entry, cl, ndim_class(rec["pre"])),
                           "numpy_util.%s result not allowed by FieldOps.tla: clause %s" % (entry, cl),
                           {"kind": "chain", "scen": ref["scen"], "ops": ref["ops"], "step": ref["step"],
@@ -473,16 +687,34 @@ def judge(ctx, steps, recs, what, tally):
 # ---------------------------------------------------------------------------------
 _CAT = [("i4", [], "<"), ("i4", [], ">"), ("f8", [], "<"), ("f8", [], ">"), ("S3", [], "|"), ("U2", [], "<"), ("i2", [2], "<"),
         ("f4", [2, 2], "<"), ("i8", [], ">"), ("u8", [], "<"), ("u2", [], ">"), ("u4", [3], ">"), ("f4", [], ">"), ("S8", [], "|"),
-        ("U5", [], ">"), ("U2", [2], ">"), ("S2", [1], "|"), ("i1", [], "|"), ("u1", [2], "|"), ("f8", [1, 2], ">"), ("i2", [], ">")]
+        ("U5", [], ">"), ("U2", [2], ">"), ("S2", [1], "|"), ("i1", [], "|"), ("u1", [2], "|"), ("f8", [1, 2], ">"), ("i2", [], ">"),
+        ("b1", [8], "|"), ("b1", [2, 4], "|"), ("c8", [], ">"), ("c16", [2], "<"), ("f2", [], "<"), ("f2", [3], ">"),
+        # outside the quantifier of the statement (judged, tallied, not gating)
+        ("M8[s]", [], "<"), ("M8[ns]", [2], ">"), ("m8[ms]", [], ">"), ("O", [], "|")]
+_NLEAF_INSIDE = 27
 _SHAPES = [[], [1], [4], [2, 3], [1, 1], [3, 1], [2, 2], [5]]
+_SUBS = [[], [], [], [2], [1, 2], [3]]
 
 
 def _fld(name, t, tok):
-    return {"name": name, "kind": t[0], "sub": list(t[1]), "order": t[2], "tok": tok}
+    return {"name": name, "kind": t[0], "sub": list(t[1]), "order": t[2], "inner": list(t[3]) if len(t) > 3 else [], "tok": tok}
 
 
-def _flip(t):
-    return (t[0], t[1], {"<": ">", ">": "<"}.get(t[2], t[2]))
+def _flip(f):
+    """the same field type in the other byte order, through every level"""
+    return dict(f, order={"<": ">", ">": "<"}.get(f["order"], f["order"]), inner=[_flip(g) for g in f["inner"]])
+
+
+def rand_type(rng, outer_names, depth=0):
+    """a field type: a leaf of the catalogue or (one in four) a nested structured type whose inner names are drawn
+    from the names of the enclosing array, the name no array has, and names of their own"""
+    if depth < 2 and rng.random() < (0.25 if depth == 0 else 0.2):
+        pool = list(outer_names) + ["zz", "m", "n", "k", "x", "p", "q", "w"]
+        inner = [_fld(nm, rand_type(rng, outer_names, depth + 1), "-") for nm in rng.sample(pool, rng.randrange(1, 4))]
+        return ("struct", rng.choice(_SUBS), "|", inner)
+    if depth:
+        return rng.choice(_CAT[:_NLEAF_INSIDE] if rng.random() < 0.9 else _CAT)
+    return rng.choice(_CAT)
 
 
 def seeded_chain(rng):
@@ -490,18 +722,20 @@ def seeded_chain(rng):
     size = int(np.prod(shape)) if shape else 1
     n = rng.randrange(1, 7)
     names = _FNAMES[:8]
-    init = {"shape": shape, "fields": [_fld(names[k], rng.choice(_CAT), "A." + names[k]) for k in range(n)]}
+    RT = lambda: rand_type(rng, names[:n])                                        # noqa: E731
+    init = {"shape": shape, "fields": [_fld(names[k], RT(), "A." + names[k]) for k in range(n)]}
     other = [s for s in _SHAPES if (int(np.prod(s)) if s else 1) != size]
     pool = {
-        "B": {"id": "B", "shape": shape, "fields": [_fld("x", rng.choice(_CAT), "B.x"), _fld("y", rng.choice(_CAT), "B.y")]},
-        "C": {"id": "C", "shape": shape, "fields": [_fld("z", rng.choice(_CAT), "C.z")]},
-        "F": {"id": "F", "shape": shape, "fields": [_fld("w", rng.choice(_CAT), "F.w"), _fld("u", rng.choice(_CAT), "F.u"), _fld("v", rng.choice(_CAT), "F.v")]},
-        "D": {"id": "D", "shape": shape, "fields": [_fld("r", rng.choice(_CAT), "D.r"), _fld(rng.choice(names[:n]), rng.choice(_CAT), "D.s")]},
-        "E": {"id": "E", "shape": rng.choice(other), "fields": [_fld("t", rng.choice(_CAT), "E.t")]},
+        "B": {"id": "B", "shape": shape, "fields": [_fld("x", RT(), "B.x"), _fld("y", RT(), "B.y")]},
+        "C": {"id": "C", "shape": shape, "fields": [_fld("z", RT(), "C.z")]},
+        "F": {"id": "F", "shape": shape, "fields": [_fld("w", RT(), "F.w"), _fld("u", RT(), "F.u"), _fld("v", RT(), "F.v")]},
+        "D": {"id": "D", "shape": shape, "fields": [_fld("r", RT(), "D.r"), _fld(rng.choice(names[:n]), RT(), "D.s")]},
+        "E": {"id": "E", "shape": rng.choice(other), "fields": [_fld("t", RT(), "E.t")]},
     }
     common = rng.sample(init["fields"], rng.randrange(1, n + 1))
     pool["G"] = {"id": "G", "shape": shape,
-                 "fields": [_fld("g", rng.choice(_CAT), "G.g")] + [_fld(f["name"], _flip((f["kind"], f["sub"], f["order"])), "G." + f["name"]) for f in common]}
+                 "fields": [_fld("g", RT(), "G.g")] + [dict(_flip(f), tok="G." + f["name"]) for f in common]}
+    style = rng.randrange(3)
     scen = {"init": init, "pool": pool}
     have = list(names[:n])           # the harness' own book-keeping of the names, only to choose plausible arguments
     ops = []
@@ -528,7 +762,7 @@ def seeded_chain(rng):
             if rng.random() < 0.15:
                 newn[0] = rng.choice(have)
             dflt = rng.random() < 0.5
-            op.update(add=[_fld(nm, rng.choice(_CAT), rng.choice(["d1", "d2", "d3"]) if dflt else "zero") for nm in newn],
+            op.update(add=[_fld(nm, RT(), rng.choice(["d1", "d2", "d3"]) if dflt else "zero") for nm in newn],
                       form=rng.choice(["descr", "dtype"]))
         elif k == "combine":
             ids = rng.sample(["B", "C", "F"], rng.randrange(0, 4))
@@ -559,23 +793,24 @@ def seeded_chain(rng):
             have = [h for h in have if h not in pick]
         elif k == "copy" and op["others"] == ["cur", "G"]:
             have = [f["name"] for f in pool["G"]["fields"]]
-    return scen, ops
+    return respell(scen, style), respell(ops, style)
 
 
 # ---------------------------------------------------------------------------------
 BOUNDS = {
     "quick": dict(
-        single=dict(Shapes={0, 1, 2}, NFields={1, 2, 3}, Rots={0, 3, 6}, MaxDepth=1, Names1=2, NamesN=1, LeanFrom=1,
+        single=dict(Shapes={0, 1, 2}, NFields={1, 2, 3}, Rots={0, 3, 6, 9}, MaxDepth=1, Names1=2, NamesN=1, LeanFrom=1,
                     Forms1={"list", "tuple", "ndarray", "scalar"}),
-        chains=[dict(Shapes={2}, NFields={2}, Rots={1}, MaxDepth=3, Names1=1, NamesN=1, LeanFrom=2, Forms1={"list"}),
-                dict(Shapes={0, 1}, NFields={2}, Rots={4}, MaxDepth=2, Names1=2, NamesN=2, LeanFrom=2, Forms1={"list"})],
+        # (i4, nested{a, zz}) with names differing in case;  (i2(2,), nested(2,){b, m{a, x}, p}) with non-ASCII / plain names
+        chains=[dict(Shapes={2}, NFields={2}, Rots={0}, MaxDepth=3, Names1=1, NamesN=1, LeanFrom=2, Forms1={"list"}),
+                dict(Shapes={0, 1}, NFields={2}, Rots={6}, MaxDepth=2, Names1=2, NamesN=2, LeanFrom=2, Forms1={"list"})],
         seeded=1500),
     "thorough": dict(
-        single=dict(Shapes={0, 1, 2}, NFields={1, 2, 3, 4}, Rots=set(range(16)), MaxDepth=1, Names1=3, NamesN=1, LeanFrom=1,
+        single=dict(Shapes={0, 1, 2}, NFields={1, 2, 3, 4}, Rots=set(range(24)), MaxDepth=1, Names1=3, NamesN=1, LeanFrom=1,
                     Forms1={"list", "tuple", "ndarray", "scalar"}),
         chains=[dict(Shapes={s}, NFields={nf}, Rots={r}, MaxDepth=3, Names1=1, NamesN=1, LeanFrom=3, Forms1={"list"})
-                for s, nf, r in ((0, 2, 1), (1, 3, 6), (2, 2, 11), (2, 3, 4), (0, 3, 13), (1, 2, 2))] +
-               [dict(Shapes={0, 1, 2}, NFields={2, 3}, Rots={0, 5, 10, 15}, MaxDepth=2, Names1=2, NamesN=2, LeanFrom=2, Forms1={"list"})],
+                for s, nf, r in ((0, 2, 1), (1, 3, 6), (2, 2, 12), (2, 3, 4), (0, 3, 19), (1, 2, 7))] +
+               [dict(Shapes={0, 1, 2}, NFields={2, 3}, Rots={0, 7, 14, 21}, MaxDepth=2, Names1=2, NamesN=2, LeanFrom=2, Forms1={"list"})],
         seeded=30000),
 }
 ACTIONS = ["Start", "Extract", "Remove", "Reorder", "Add", "Combine", "Copy", "CopyByName", "Split"]
@@ -583,7 +818,7 @@ INVARIANTS = ["NamesDistinct", "ShapeInv", "StepLaws", "RejectLaws", "MechRefine
 
 
 def _consts(b, **kw):
-    d = dict(b, FixedShape=True, DoExport=False)
+    d = dict(b, FixedShape=True, DoExport=False, NameStyles={0, 1, 2}, NameCover=True)
     d.update(kw)
     return d
 
@@ -610,11 +845,12 @@ def run(ctx):
         r2 = ctx.tlc("FieldOpsMC.tla", what="export behaviours, %s" % label,
                      cfg_text=cfg(constants=_consts(c, DoExport=True), constraints=["Export"]),
                      workers=1, coverage=True, require=ACTIONS, timeout=3000)     # vacuity guard: every action fired
-        scens = {tuple(s["key"]): {"init": s["init"], "pool": s["pool"]} for s in r2.records.get("SCEN", [])}
+        # (the fourth component of the key is the name style: the scenario and its operations are spelt in it)
+        scens = {tuple(s["key"]): respell({"init": s["init"], "pool": s["pool"]}, s["key"][3]) for s in r2.records.get("SCEN", [])}
         cases = r2.records.get("CASE", [])
         if not cases or not scens or r2.garbled:
             raise MachineryError("no behaviours exported (%s; %d garbled)" % (label, r2.garbled))
-        chains = [(scens[tuple(c_["key"])], c_["ops"]) for c_ in cases]
+        chains = [(scens[tuple(c_["key"])], respell(c_["ops"], c_["key"][3])) for c_ in cases]
         nbeh += len(chains)
         del cases, r2
         ctx.log("replaying %d behaviours (%s)" % (len(chains), label))
@@ -632,13 +868,13 @@ def run(ctx):
             uni = scenario_universe(scen)
             for a in [scen["init"]] + list(scen["pool"].values()):
                 for f in a["fields"]:
-                    uni.table(f["kind"], list(a["shape"]) + list(f["sub"]))
-                    uni.table(f["kind"], list(scen["init"]["shape"]) + list(f["sub"]))
+                    uni.table(f, list(a["shape"]) + list(f["sub"]))
+                    uni.table(f, list(scen["init"]["shape"]) + list(f["sub"]))
             for op in ops:
                 for f in op["add"]:
-                    uni.table(f["kind"], list(scen["init"]["shape"]) + list(f["sub"]))
-        except MachineryError:
-            continue                      # two tokens would coincide for a 1-byte kind: draw another scenario
+                    uni.table(f, list(scen["init"]["shape"]) + list(f["sub"]))
+        except Unusable:
+            continue                      # two tokens would coincide (1-byte kinds, flags of a 0-d array): draw another scenario
         sch.append((scen, ops))
     steps.add_chains(sch)
     ctx.sample({"seeded_initial": sch[0][0]["init"], "operations": [{k: v for k, v in o.items() if v not in ([], "")} for o in sch[0][1]]}, cap=8)
@@ -666,10 +902,33 @@ def run(ctx):
         6: (corrupt(lambda o: o.update(fresh=False)), "not_a_new_array"),
         7: (probe["obs"], None),
     }
+    # a retained NESTED field: an inner field dropped / renamed to its outer twin / byte-swapped, data of one leaf lost
+    def is_nested(f):
+        return f["kind"] == "struct" and len(f["inner"]) >= 2
+    probe2 = next(r for r in steps.recs if r["op"]["op"] in ("remove", "extract") and r["op"]["form"] == "list" and r["obs"]["err"] == "none"
+                  and any(is_nested(f) for f in r["obs"]["arr"]["fields"])
+                  and len(set(r["op"]["names"])) == len(r["op"]["names"]))
+    k2 = next(i for i, f in enumerate(probe2["obs"]["arr"]["fields"]) if is_nested(f))
+
+    def corrupt2(fn):
+        o = json.loads(json.dumps(probe2["obs"]))
+        fn(o["arr"]["fields"][k2])
+        return o
+    bads2 = {
+        11: (corrupt2(lambda f: f.update(inner=f["inner"][1:])), "field_substructure"),
+        12: (corrupt2(lambda f: f["inner"][0].update(name=f["inner"][0]["name"] + "_")), "field_substructure"),
+        13: (corrupt2(lambda f: f["inner"][0].update(order="!")), "field_substructure"),
+        14: (corrupt2(lambda f: f.update(tok="?")), "field_data"),
+        15: (corrupt2(lambda f: f.update(inner=f["inner"][::-1])), "field_substructure"),
+        16: (probe2["obs"], None),
+    }
     saved = ctx.traces
-    rej = tracecheck.validate(ctx, "FieldOpsTrace.tla", [{"id": i, "pre": probe["pre"], "op": probe["op"], "obs": o} for i, (o, _) in bads.items()],
+    rej = tracecheck.validate(ctx, "FieldOpsTrace.tla",
+                              [{"id": i, "pre": probe["pre"], "op": probe["op"], "obs": o} for i, (o, _) in bads.items()] +
+                              [{"id": i, "pre": probe2["pre"], "op": probe2["op"], "obs": o} for i, (o, _) in bads2.items()],
                               what="self-test: corrupted steps rejected", workers=1)
     ctx.traces = saved
+    bads.update(bads2)
     for i, (_, want) in bads.items():
         got = [c.split(":")[0] for c in rej.get(i, [])]
         if want is not None and got != [want]:
@@ -681,24 +940,49 @@ def run(ctx):
     real.reshape(-1).view(np.uint8)[0] ^= 0x40
     if project(real, uni0)["fields"][0]["tok"] != "?":
         raise MachineryError("projection self-test failed: a flipped data byte kept its token")
+    # ... also in the last leaf of a nested field (the scenario of probe2 has one)
+    ref2 = steps.refs[probe2["id"] - 1]
+    uni2 = scenario_universe(ref2["scen"])
+    nested = [(a, f) for a in [ref2["scen"]["init"]] + [ref2["scen"]["pool"][i] for i in sorted(ref2["scen"]["pool"])]
+              for f in a["fields"] if f["kind"] == "struct"]
+    if not nested:
+        raise MachineryError("projection self-test: no nested field in the scenario of the nested probe")
+    for a, f in nested[:2]:
+        real = build(a)
+        fdt, off = real.dtype.fields[f["name"]][:2]
+        while fdt.base.names is not None:                 # first element of the last leaf, in the first record
+            fdt, o2 = fdt.base.fields[fdt.base.names[-1]][:2]
+            off += o2
+        real.reshape(-1).view(np.uint8)[off + fdt.base.itemsize - 1] ^= 0x01
+        got = {g["name"]: g["tok"] for g in project(real, uni2)["fields"]}
+        if got[f["name"]] != "?" or any(got[g["name"]] != g["tok"] for g in a["fields"] if g["name"] != f["name"]):
+            raise MachineryError("projection self-test failed: a flipped byte in a nested leaf kept its token (or another field lost its)")
     S = B["single"]
     ctx.rule = ("every single field operation over the full alphabet (arrays of shape (), (3,), (2,2) with %s fields typed by %d rotations of "
-                "{i4, >i4, f8, >f8, S3, U2, i2(2,), f4(2,2)}; every ordered name selection of length <= %d incl. a missing name, strict and "
-                "not, names as list/tuple/ndarray/scalar; add-descriptors of <= 2 fields with/without defaults, as descr and dtype; lists "
-                "of 1..4 arrays incl. shared name / other size; copy into, out of, unequal sizes; copy_by_name; split) and every chain of "
-                "<= 3 operations over the chain alphabet (%d behaviours in all, exported from FieldOpsMC.tla), each replayed into the real "
-                "code; plus %d seeded chains of 2..6 operations over %d field types and %d shapes; counted: %d real calls, of which the "
+                "{i4, >i4, f8, >f8, S3, U2, i2(2,), f4(2,2), b1(8,), >c8, nested{a:>f4, zz:i2(2,)}, nested(2,){b:>U2, m:{a:>i4, x:f8}, p:S3}} - a "
+                "nested structured field is ONE field whose inner field sequence, inner byte orders and data must be retained; its inner "
+                "names equal outer names, the name no array has, names of added fields and of fields of the other arrays -, the names spelt plainly / differing only in case and long / non-ASCII "
+                "(one spelling per scenario, pairwise covering); every ordered name selection of length <= %d incl. a missing name, strict and "
+                "not, names as list/tuple/ndarray/scalar; add-descriptors of <= 2 fields (also nested ones) with/without defaults, as descr and "
+                "dtype; lists of 1..4 arrays incl. shared name / other size; copy into, out of, unequal sizes; copy_by_name; split) and every "
+                "chain of <= 3 operations over the chain alphabet (%d behaviours in all, exported from FieldOpsMC.tla), each replayed into the "
+                "real code; plus %d seeded chains of 2..6 operations over %d leaf types (also f2, c16, u1.., and - not gating - M8, m8, O), random "
+                "nested types of depth <= 2, %d shapes and the three spellings; counted: %d real calls, of which the "
                 "distinct (input projection, operation, observation) steps are the distinct non-trivial cases" %
                 (sorted(S["NFields"]), len(S["Rots"]), S["Names1"], nbeh, nseed, len(_CAT), len(_SHAPES), steps.calls))
     ctx.exhaustive = True
     ctx.traces = ctx.traces                # steps accepted by TLC (counted by tracecheck)
     ctx.note(bounds={"single": _j(B["single"]), "chains": [_j(c) for c in B["chains"]]}, behaviours_replayed=nbeh,
              seeded_chains=nseed, real_calls=steps.calls, distinct_steps=len(steps.recs),
-             nongating_name_forms_not_matching_documented_result=tally)
+             nongating_name_forms_or_outside_types_not_matching_documented_result=tally)
     ctx.assumptions = ["data tokens are NaN-free and -0.0-free, so element-wise equality of a field with its source is byte equality of the native-order values",
                        "forms of passing names that the docstrings do not document (tuple / ndarray / scalar for extract, remove, reorder, split; "
                        "tuple for combine and copy_fields_by_name) are exercised and tallied but do not gate",
-                       "aligned (non-packed) dtypes, zero-size arrays, duplicate names in one request and lossy type conversions in copy_fields are outside the quantifier"]
+                       "aligned (non-packed) dtypes, zero-size arrays, duplicate names in one request and lossy type conversions in copy_fields are outside the quantifier",
+                       "steps that involve a datetime64 / timedelta64 / object field (the quantifier names numeric, bytes and unicode fields) are exercised "
+                       "and judged by the same specification, but tallied instead of gating",
+                       "a nested structured field counts as one field of the array (its inner names are not field names of the array): the statement's "
+                       "'every retained field has the same type' is read as 'the same inner field sequence, inner sub-array shapes and inner byte orders'"]
 
 
 def _j(b):
